@@ -11,13 +11,25 @@ notes={
  "C01-1":"missed by the first version (no nested assignment targets); the directed lvalue-path generator (field chains, list elements, nested lists) was added; caught as behaviour:wrong-value",
  "C02-1":"missed by the first version (same gap); caught by the lvalue-path generator as rustc:E0614",
  "C13-1":"caught after the RustKeyword class was changed from a rotating sample to a sweep of the whole pool at every position",
+ "C12-1":"missed by the first version; projects now carry long const chains and >= 8 of every name-keyed entity; caught as generated-rust:*:content",
+ "C03-2":"missed at first (one violation in a minimal context); a preceding-sibling dimension was added; caught as accepted-after-sibling:closure-def:try:in-non-result-fn",
+ "C08-2":"missed at first (G-syn never nested 9 levels); depth/size stress classes and non-default format configs were added; caught as reparse:Expected indented block",
+ "C09-2":"missed at first (non-parsing formatter output was only counted as blocked_by_C08); now judged unless an open C08 finding explains it; caught as idem:formatted-output-not-parseable",
+ "C06-2":"missed at first (injected cycles never were alias-only with an outside tail); cycle-shape generator with hang detection added; caught as hang:const-cycle",
+ "C11-2":"missed at first (engine built the compiler crates without overflow checks; no boundary literals); overflow checks enabled for the compiler crates in the engine and an exhaustive numeric-literal leg added; caught as panic:lex:...numbers.rs",
+ "C18-2":"missed at first (reopen always used a larger version); reopen now draws same/lower/1/higher versions and 'latest text' is by history order; caught as stale-kept/diagnostics:last-not-latest",
+ "C12-2":"missed at first (two invocation styles); the spelling of the entry path / working directory is now a generated dimension with parent-relative imports and decoy modules; caught as generated-files:set",
+ "C02-2":"missed at first (G-prog has no async/rust:: imports); feature x rust:: import templates judged by cargo metadata were added; caught as template:async/tokio-from:manifest-invalid",
+ "C13-2":"caught by the text-template leg (closures called from nested blocks) added after the first round",
 }
 for d in sorted(glob.glob('/verif/seeded/*/')):
     name=os.path.basename(d.rstrip('/'))
     prop=name.split('-')[0]
     mp=d+'meta.json'
     m=json.load(open(mp)) if os.path.exists(mp) else {"property":prop}
-    log=f'/verif/work/me/seeded/{prop}.log' if name.endswith('-1') else f'/verif/work/me/seeded/{name}.log'
+    log=f'/verif/work/me/seeded/{name}.log'
+    if not os.path.exists(log) and name.endswith('-1'):
+        log=f'/verif/work/me/seeded/{prop}.log'
     res=None; sigs=[]
     if os.path.exists(log):
         t=open(log,errors='replace').read()
